@@ -5,7 +5,7 @@ from ._nodecommon import *
 
 ID = "C14"
 LEAN_MODULES = ["VpnCloud.Proofs.C14"]
-THEOREMS = []
+THEOREMS = ["VpnCloud.Proofs.C14." + n for n in ("self_detect", "mesh_halving", "mesh_closure")]
 RULE = ("suite node: all connected labelled graphs on 2-4 nodes (quick: all on 2-3, sampled on 4; thorough: also 5 and sampled 6-8) as connect instructions with a dialling orientation per edge, NAT on/off; "
         "self-dial scenarios in which a node's own handshake datagrams return to it from differing source addresses, alone and inside a mesh; full mesh and never-self-peer are checked; "
         "distinct non-trivial = distinct (op, #datagrams out, #interface writes, #peers, #pending, mutation kind)")
